@@ -11,4 +11,5 @@ G_C01_OnlyAdded  == Clean(C01_OnlyAdded)
 G_C03_Notes      == Clean(C03_Notes)
 G_C03_Blame      == Clean(C03_Blame)
 G_C05_WellFormed == Clean(C05_WellFormed)
+DbgNoCleanHumanCkpt == ~(\E i \in DOMAIN hist : hist[i].a = "Ckpt" /\ hist[i].kind = "human" /\ hist[i].files = {})
 ==============================================================================
